@@ -436,7 +436,8 @@ Definition h_rc_create (d : db) (v n : Z) : db * resp :=
   | Err _ => (d, err 409 C_DEFAULT)
   end.
 Definition h_rc_put (d : db) (v n : Z) : db * resp :=
-  if v <? 7 then (d, err 404 C_DEFAULT) else
+  if v <? 2 then (d, err 404 C_DEFAULT) else
+  if v <? 7 then (d, err 415 C_DEFAULT) else     (* 1.2 - 1.6: PUT is the rename operation, which wants a JSON body *)
   if is_std_rc_name n then (d, err 400 C_DEFAULT) else
   match rc_id_of_name d n with
   | Some _ => (d, ok 204)
